@@ -99,7 +99,13 @@ fn main() {
         }
         "replay" => {
             let text = std::fs::read_to_string(&args[2]).expect("read trace");
-            let trace: Trace = serde_json::from_str(&text).expect("parse trace");
+            let trace: Trace = match serde_json::from_str(&text) {
+                Ok(t) => t,
+                Err(e) => {
+                    eprintln!("cannot parse trace {}: {e}", args[2]);
+                    std::process::exit(2);
+                }
+            };
             if trace.features != wire::FEATURES {
                 eprintln!("trace is for features {} but this binary is {}", trace.features, wire::FEATURES);
                 std::process::exit(2);
